@@ -94,6 +94,8 @@ type coreDump struct {
 	betFee  sdkmath.Int
 	hFee    sdkmath.Int
 	indexEq bool
+	// settled index: bet uid -> the heights it is listed under
+	settledAt map[string][]int64
 }
 
 func dumpCore(e *Env, ix *coreIx) *coreDump {
@@ -236,6 +238,10 @@ func dumpCore(e *Env, ix *coreIx) *coreDump {
 			var v bettypes.SettledBet
 			e.App.AppCodec().MustUnmarshal(it.Value(), &v)
 			add("SB %d %d %d %d", utils.Int64FromBytes(k[:8]), utils.Uint64FromBytes(k[8:]), uidN(v.UID), ix.A(v.BettorAddress))
+			if d.settledAt == nil {
+				d.settledAt = map[string][]int64{}
+			}
+			d.settledAt[v.UID] = append(d.settledAt[v.UID], utils.Int64FromBytes(k[:8]))
 		}
 		it.Close()
 	}
@@ -486,6 +492,7 @@ func runCore(seed uint64, n int, out *Out) {
 			if err := e.App.AuthzKeeper.SaveGrant(e.Ctx, e.Accts[grantee], e.Accts[granter], a, &t); err == nil {
 				out.Op("GR %d %d %d %d %d", granter, grantee, kind, limit, t.Unix())
 				out.Count("op.grant.directed")
+				noteGrant(h, granter, grantee, kind, limit, t.Unix())
 			}
 		}
 		nOps := 20 + r.Intn(maxOps)
@@ -593,11 +600,24 @@ func runCore(seed uint64, n int, out *Out) {
 				if r.Chance(3) {
 					ts = 0
 				}
+				// another spelling of an own outcome's uid (upper-case hex) is a different string: not an outcome of the market
+				respelled := false
+				if len(winners) == 1 && r.Chance(8) {
+					if up := strings.ToUpper(winners[0]); up != winners[0] {
+						winners[0] = up
+						respelled = true
+						out.Count("op.marketResolve.respelled-winner")
+					}
+				}
 				key, valid := signKey()
 				tk := e.Ticket(key, map[string]interface{}{"uid": m.uid, "resolution_ts": ts, "winner_odds_uids": winners, "status": status})
 				var wn []string
 				for _, u := range winners {
-					wn = append(wn, strconv.FormatUint(uidN(u), 10))
+					n := uidN(u)
+					if respelled {
+						n += 700000
+					}
+					wn = append(wn, strconv.FormatUint(n, 10))
 				}
 				out.Op("MR %d %d %d %d %d %s", b2i(valid), m.n, ts, status, len(wn), strings.Join(wn, " "))
 				err, pan := e.Tx(func(ctx sdk.Context) error {
@@ -628,6 +648,7 @@ func runCore(seed uint64, n int, out *Out) {
 					}
 					_ = e.App.AuthzKeeper.DeleteGrant(e.Ctx, e.Accts[grantee], e.Accts[granter], url)
 					out.Count("op.revoke")
+					noteRevoke(h, granter, grantee, kind)
 					break
 				}
 				limit := r.Range(1, 5000)
@@ -648,6 +669,7 @@ func runCore(seed uint64, n int, out *Out) {
 				if err := e.App.AuthzKeeper.SaveGrant(e.Ctx, e.Accts[grantee], e.Accts[granter], a, expT); err == nil {
 					out.Op("GR %d %d %d %d %d", granter, grantee, kind, limit, expS)
 					out.Count("op.grant")
+					noteGrant(h, granter, grantee, kind, limit, expS)
 				}
 			case c < 42:
 				// ---- house deposit (own or delegated)
